@@ -10,6 +10,7 @@ package main
 //	agg num     <keep> <rev> <hist> <qs>     MatchNumerical vs Lean's native Float (+ tolerance vs the exact Rat run)
 //	agg numf / numfv ...                     MatchNumerical vs the software binary64 model (see c07numf64.go)
 //	agg numerr <e> <bits>                    the proved float tolerances checked on the real aggregator (see c07numerr.go)
+//	agg numh <keep> <rev> <ops> <ps>         MatchNumerical with Analyze() calls BETWEEN the samples (see c07numh.go)
 //	split <delim> <s> <n>                    stringSplitter.Splitter: n calls of Next with Done after each
 //	acc <opt> <rev> <ops>                    AccumulatingGroup (see c07acc.go)
 //	sorted counter|subkey|table ...          counted / sorted accessors (see c07sorted.go)
@@ -196,6 +197,8 @@ func c07RunOnce(f []string) string {
 			return c07RunNumF(f)
 		case "numerr":
 			return c07RunNumErr(f)
+		case "numh":
+			return c07RunNumH(f)
 		case "num":
 			var qs []string
 			if f[5] != "." {
@@ -433,6 +436,7 @@ func c07Gen(r *Rand, tier string) []string {
 	out = append(out, c07GkGen(r, tier)...)
 	out = append(out, c07NumFGen(r, tier)...)
 	out = append(out, c07NumErrGen(r, tier)...)
+	out = append(out, c07NumHGen(r, tier)...)
 	for i := 0; i < n; i++ {
 		out = append(out, "agg counter "+HexListS(c07Hist(r, "\x00", 1)))
 		out = append(out, "agg subkey "+HexListS(c07Hist(r, "\x00", 2)))
@@ -557,6 +561,8 @@ func c07Stats(cases []string) map[string]int {
 			c07NumFStats(f, st)
 		case "numerr":
 			c07NumErrStats(f, st)
+		case "numh":
+			c07NumHStats(f, st)
 		case "num":
 			if f[2] == "0" {
 				st["num.noKeep"]++
@@ -591,5 +597,5 @@ var c07Corpus = []string{
 }
 
 func init() {
-	Register("C07", &Prop{Gen: c07Gen, Run: c07Run, Stats: c07Stats, Corpus: append(append(append(append([]string{}, c07Corpus...), c07AccCorpus...), c07NumFCorpus...), c07NumErrCorpus...)})
+	Register("C07", &Prop{Gen: c07Gen, Run: c07Run, Stats: c07Stats, Corpus: append(append(append(append(append([]string{}, c07Corpus...), c07AccCorpus...), c07NumFCorpus...), c07NumErrCorpus...), c07NumHCorpus...)})
 }
